@@ -11,7 +11,13 @@ fn kv_tan_const(_x: f64) -> f64 { KV_TAN_1K_48K }
 fn kv_filter(mode: FilterMode, mix: f32, s1: Frame, s2: Frame) -> Filter {
 	let (w, r) = command_writers_and_readers();
 	std::mem::forget(w);
-	Filter { command_readers: r, mode, cutoff: Parameter::new(Value::Fixed(1000.0), 1000.0), resonance: Parameter::new(Value::Fixed(0.0), 0.0), mix: Parameter::new(Value::Fixed(Mix(mix)), Mix(1.0)), ic1eq: s1, ic2eq: s2 }
+	// built through the crate's own constructor and then put into the symbolic state, so that a change that adds a
+	// field to Filter still builds (a struct literal here once made the whole check inconclusive on such a change)
+	let mut b = FilterBuilder::new();
+	b.mode = mode; b.cutoff = Value::Fixed(1000.0); b.resonance = Value::Fixed(0.0); b.mix = Value::Fixed(Mix(mix));
+	let mut fx = Filter::new(b, r);
+	fx.ic1eq = s1; fx.ic2eq = s2;
+	fx
 }
 fn kv_mode() -> FilterMode { let m: u8 = kani::any(); match m % 4 { 0 => FilterMode::LowPass, 1 => FilterMode::BandPass, 2 => FilterMode::HighPass, _ => FilterMode::Notch } }
 fn kv_fin(b: f32) -> f32 { let v: f32 = kani::any(); kani::assume(v.is_finite() && v.abs() <= b); v }
@@ -127,7 +133,7 @@ fn c13_filter_is_homogeneous() {
 #[kani::unwind(3)]
 fn c07_filter_mode_command_applied_exactly_once() {
 	let (mut w, r) = command_writers_and_readers();
-	let mut fx = Filter { command_readers: r, mode: FilterMode::LowPass, cutoff: Parameter::new(Value::Fixed(1000.0), 1000.0), resonance: Parameter::new(Value::Fixed(0.0), 0.0), mix: Parameter::new(Value::Fixed(Mix(1.0)), Mix(1.0)), ic1eq: Frame::ZERO, ic2eq: Frame::ZERO };
+	let mut fx = Filter::new(FilterBuilder::new(), r); // defaults: low pass, 1 kHz, resonance 0, fully wet
 	let n: u8 = kani::any();
 	kani::assume(n <= 2);
 	let (m1, m2) = (kv_mode(), kv_mode());
@@ -149,7 +155,7 @@ static mut KV_TAN_N: u32 = 0;
 fn kv_tan_spy(x: f64) -> f64 { unsafe { KV_TAN_ARG = x; KV_TAN_N += 1; } KV_TAN_1K_48K }
 
 // @h prop=C16,C13,C14 tier=quick kind=main timeout=600
-// @bounds a filter (cutoff 1 kHz) initialised at one device rate (8 k, 24 k, 44.1 k or 192 kHz), told about a change to another rate of that set, then one frame processed with the dt of the NEW rate; any small signal and state. Native replay: bit-identical output with a filter that was created at the new rate
+// @bounds a filter (cutoff 1 kHz) initialised at one device rate (8 k, 24 k, 44.1 k or 192 kHz), told about a change to another rate of that set, then one frame processed with the dt of the NEW rate; filter at rest, any non-zero small-integer input. Native replay: bit-identical output with a filter that was created at the new rate
 // @funcs Filter::process, Effect::init / Effect::on_change_sample_rate for Filter
 // @assume f64::tan replaced by a recording stand-in
 // @catches a cutoff in hertz that does not survive a device sample-rate change (coefficient derived from a rate cached at init instead of the rate in force): the argument of tan must be pi x cutoff x dt for the dt in force
@@ -161,7 +167,10 @@ fn c16_filter_cutoff_uses_the_rate_in_force() {
 	let (a, b): (u8, u8) = (kani::any(), kani::any());
 	let (old_rate, new_rate) = (pick(a), pick(b));
 	let sm = || { let v: i8 = kani::any(); kani::assume(v >= -4 && v <= 4); v as f32 };
-	let (x, s1, s2) = (sm(), sm(), sm());
+	// a non-zero input on a filter at rest: the output then depends on the coefficient, so that the native replay
+	// (which has no spy and compares outputs) can see what the spy saw
+	let (x, s1, s2) = (sm(), 0.0f32, 0.0f32);
+	kani::assume(x != 0.0);
 	let mut fx = kv_filter(FilterMode::LowPass, 1.0, Frame::from_mono(s1), Frame::from_mono(s2));
 	crate::effect::Effect::init(&mut fx, old_rate, 128);
 	crate::effect::Effect::on_change_sample_rate(&mut fx, new_rate);
